@@ -58,9 +58,9 @@ var c15Callbacks = []func() jast.Node{
 	},
 	func() jast.Node { return &jast.Apply{L: v("string"), R: v("length")} },
 	// a function held by value after passing through a library function
-	func() jast.Node { return call("distinct", v("string")) },
+	func() jast.Node { return call("single", v("string"), lam([]string{"f"}, &jast.Bool{V: true})) },
 	func() jast.Node {
-		return &jast.Pred{X: call("reverse", &jast.Array{Items: []jast.Node{v("type"), v("string")}}), Filters: []jast.Node{&jast.Num{V: 0}}}
+		return &jast.Pred{X: call("filter", v("type"), lam([]string{"f"}, &jast.Bool{V: true})), Filters: []jast.Node{&jast.Num{V: 0}}}
 	},
 	// declared with no parameters: must be called without arguments
 	func() jast.Node { return &jast.Lambda{Params: nil, Sig: ":s", Body: &jast.Str{V: "typed0"}} },
